@@ -50,7 +50,8 @@ EXC_PARENTS = {
     "TypeError": ["Exception", "BaseException"],
     "AttributeError": ["Exception", "BaseException"],
     "ZeroDivisionError": ["ArithmeticError", "Exception", "BaseException"],
-    "OperationalError": ["Exception", "BaseException"],
+    "OperationalError": ["Error", "Exception", "BaseException"],
+    "Error": ["Exception", "BaseException"],
     "IntegrityError": ["Exception", "BaseException"],
     "OtherError": ["Exception", "BaseException"],
     "Exception": ["BaseException"],
